@@ -58,6 +58,54 @@ impl MappingsDecoder<'_> {
 """
 
 
+# Client lemma: `MappingsDecoder::new(s).collect()` (what helpers::decode_mappings hands out, driven to exhaustion)
+# written against the CONTRACTS of new/next: iterating next() until None yields dec_iter(ds0, bytes), which
+# lemma_iter_is_all (codec_thm) equates with dec_all.  Not repository code; it shows the contracts compose and that
+# the iteration terminates (each call consumes a byte or clears the pending segment).
+CLIENT = r"""
+fn client_decode_all(s: &str) -> (v: Vec<Mapping>)
+  requires s.spec_bytes().len() < u32::MAX - 1
+  ensures v@ =~= dec_iter(ds0(), s.spec_bytes())
+{
+  let mut d = MappingsDecoder::new(s);
+  let mut v: Vec<Mapping> = Vec::new();
+  let ghost sb = s.spec_bytes();
+  let ghost mut consumed: nat = 0;
+  proof { assert(Seq::<Mapping>::empty() + dec_iter(ds0(), sb) =~= dec_iter(ds0(), sb)); assert(sb.skip(0) =~= sb); }
+  loop
+    invariant_except_break d.inv(), consumed <= sb.len(), d.rem() == sb.skip(consumed as int),
+      v@ + dec_iter(d.ds(), sb.skip(consumed as int)) == dec_iter(ds0(), sb),
+    ensures v@ == dec_iter(ds0(), sb),
+    decreases sb.len() - consumed, d.ds().pos
+  {
+    let ghost s0 = d.ds();
+    let ghost b0 = sb.skip(consumed as int);
+    let ghost k = dec_next(s0, b0).2;
+    proof { lemma_next_bounds(s0, b0); }
+    match d.next() {
+      None => {
+        proof { assert(dec_iter(s0, b0) =~= Seq::<Mapping>::empty()); assert(v@ + Seq::<Mapping>::empty() =~= v@); }
+        break;
+      }
+      Some(m) => {
+        let ghost v0 = v@;
+        v.push(m);
+        proof {
+          let (e, s2, k2) = dec_next(s0, b0);
+          assert(dec_iter(s0, b0) == seq![m] + dec_iter(s2, b0.skip(k as int)));
+          assert(v0 + (seq![m] + dec_iter(s2, b0.skip(k as int))) =~= (v0 + seq![m]) + dec_iter(s2, b0.skip(k as int)));
+          assert(v0.push(m) =~= v0 + seq![m]);
+          assert(b0.skip(k as int) =~= sb.skip((consumed + k) as int));
+          consumed = consumed + k;
+        }
+      }
+    }
+  }
+  v
+}
+"""
+
+
 def build(u):
     u.use("use std::slice::Iter;")
     u.use("use vstd::std_specs::iter::IteratorSpec;")
@@ -65,6 +113,8 @@ def build(u):
     u.item("src/source.rs", "pub struct Mapping {")
     u.item("src/source.rs", "pub struct OriginalLocation {")
     u.spec("codec_spec.rs")
+    u.spec("codec_all_spec.rs")
+    u.spec("codec_next_bounds.rs")
     for c in ["const COM: u8", "const SEM: u8", "const ERR: u8", "const CONTINUATION_BIT: u8", "const DATA_MASK: u8", "const B64: [u8; 256]"]:
         u.item("src/decoder.rs", c)
     u.item("src/decoder.rs", "pub(crate) struct MappingsDecoder<'a>")
@@ -114,6 +164,7 @@ def build(u):
     it.at("next", "before", r"let\s+final_value\s*=", "next.hint.shr", "hint",
           "proof { let x = self.current_value as i64; assert((x >> 1) > -0x4000_0000_0000_0001i64 && (x >> 1) < 0x4000_0000_0000_0000i64) by (bit_vector); }",
           regex=True)
+    u.raw(CLIENT, ("glue", NAME + ":client"), tags=F)
     u.contracted += [
         ("MappingsDecoder::new", "src/decoder.rs"),
         ("MappingsDecoder::next", "src/decoder.rs"),
